@@ -153,6 +153,11 @@ fn alphabet(k: &K, s: &Store, reduced: bool) -> Vec<Adm> {
         v.push(Adm { name: format!("configure_emode({bl},dup)"), tx: Tx::one(ix::configure_bank_emode(g, w.roles.emode, *bk, own, entries_of(&[(7, frac(1, 2), frac(6, 10)), (7, frac(1, 2), frac(6, 10))])), &[w.roles.emode]) });
         v.push(Adm { name: format!("configure_emode({bl},two)"), tx: Tx::one(ix::configure_bank_emode(g, w.roles.emode, *bk, own, entries_of(&[(7, frac(8, 10), frac(85, 100)), (if bl == "KA" { 6 } else { 5 }, frac(9, 10), frac(92, 100))])), &[w.roles.emode]) });
         v.push(Adm { name: format!("configure_emode({bl},clear)"), tx: Tx::one(ix::configure_bank_emode(g, w.roles.emode, *bk, own, entries_of(&[])), &[w.roles.emode]) });
+        // a bank that cannot be borrowed from (limit 0) is still a bank whose configuration must be coherent; and the
+        // wind-down instructions of the risk admin are admin instructions too (the killed state is not theirs to leave)
+        v.push(Adm { name: format!("limits_only({bl},borrow=0)"), tx: Tx::one(ix::configure_bank_limits_only(g, w.roles.limit, *bk, None, Some(0), None), &[w.roles.limit]) });
+        v.push(Adm { name: format!("configure_bank({bl},tokenless=on)"), tx: Tx::one(ix::configure_bank(g, admin, *bk, BankConfigOpt { tokenless_repayments_allowed: Some(true), ..opt_none() }), &[admin]) });
+        v.push(Adm { name: format!("force_tokenless_complete({bl})"), tx: Tx::one(ix::force_tokenless_repay_complete(g, w.roles.risk, *bk), &[w.roles.risk]) });
         v.push(Adm { name: format!("limits_only({bl})"), tx: Tx::one(ix::configure_bank_limits_only(g, w.roles.limit, *bk, Some(7), Some(8), Some(9)), &[w.roles.limit]) });
     }
     for (fl, fk) in &bank_keys {
